@@ -160,6 +160,31 @@ impl Vm {
   }
 
   /// Record a scheduler event without arguments
+  /// Record a call frame / exception handler / nested loop event of the current fiber
+  pub(super) fn verif_exc_event(&self, ev: &str, n: i64) {
+    if core_verif::wants(core_verif::EXC) {
+      core_verif::emit(
+        core_verif::EXC,
+        format!("{{\"ev\":\"{}\",\"f\":{},\"n\":{}}}", ev, self.verif_fiber_id(), n),
+      );
+    }
+  }
+
+  /// Record the end of a nested interpreter loop started by a native
+  pub(super) fn verif_exc_exit(&self, n: i64, result: &str) {
+    if core_verif::wants(core_verif::EXC) {
+      core_verif::emit(
+        core_verif::EXC,
+        format!(
+          "{{\"ev\":\"nexit\",\"f\":{},\"n\":{},\"r\":\"{}\"}}",
+          self.verif_fiber_id(),
+          n,
+          result
+        ),
+      );
+    }
+  }
+
   pub(super) fn verif_sched_event(&self, ev: &str, code: i64) {
     if core_verif::wants(core_verif::SCHED) {
       core_verif::emit(
